@@ -229,6 +229,13 @@ class Cache:
         if self.backend.backend_name == "polars":
             return None
 
+        # The function type of a column is taken from this table's own record of it, not from
+        # the reference object the user passed: a reference taken from another table of the
+        # pipeline (e.g. after an `alias()`) may carry a function type that is not valid here.
+        def ftype_here(col: Col, **kwargs):
+            own = self.cols.get(col._uuid)
+            return (own if own is not None else col).ftype(**kwargs)
+
         if (
             isinstance(
                 node,
@@ -250,7 +257,7 @@ class Cache:
 
         if isinstance(node, verbs.Mutate) and any(
             any(
-                col.ftype(agg_is_window=True) in (Ftype.WINDOW, Ftype.AGGREGATE)
+                ftype_here(col, agg_is_window=True) in (Ftype.WINDOW, Ftype.AGGREGATE)
                 for col in fn.iter_subtree_postorder()
                 if isinstance(col, Col)
             )
@@ -260,7 +267,7 @@ class Cache:
             return "nested window / aggregation functions in `mutate`"
 
         if isinstance(node, verbs.Filter) and any(
-            col.ftype(agg_is_window=True) == Ftype.WINDOW for col in node.iter_col_nodes() if isinstance(col, Col)
+            ftype_here(col, agg_is_window=True) == Ftype.WINDOW for col in node.iter_col_nodes() if isinstance(col, Col)
         ):
             return "window function in `filter`"
 
@@ -275,7 +282,7 @@ class Cache:
             if self.is_summarized or (self.group_by and self.group_by != set(self.partition_by)):
                 return "nested summarize"
             if any(
-                (col.ftype(agg_is_window=False) in (Ftype.WINDOW, Ftype.AGGREGATE))
+                (ftype_here(col, agg_is_window=False) in (Ftype.WINDOW, Ftype.AGGREGATE))
                 for col in node.iter_col_nodes()
                 if isinstance(col, Col)
             ):
@@ -297,7 +304,7 @@ class Cache:
                 return "join with a table containing window function expression"
 
             if any(
-                col.ftype() != Ftype.ELEMENT_WISE and col._uuid in self.cols
+                ftype_here(col) != Ftype.ELEMENT_WISE and col._uuid in self.cols
                 for col in node.on.iter_subtree_postorder()
                 if isinstance(col, Col)
             ):
